@@ -516,6 +516,10 @@ func c13MatchLevel(c *vkit.Ctx) {
 				return
 			}
 			rep := res.Signals.Errors[0]
+			if strings.Contains(rep, "\x1b") && !strings.Contains(ta+tb, "\x1b") {
+				c.Violate("match-level-escape-sequence-in-nocolor", "", "ESC byte in the message of a failing call in NO_COLOR mode: "+vkit.Q(vkit.Clip(rep, 300)), in)
+				return
+			}
 			body := rep
 			if k := strings.LastIndex(strings.TrimSuffix(rep, "\n"), "\n"); k >= 0 && strings.HasPrefix(rep[k+1:], "at ") {
 				body = rep[:k+1]
